@@ -2,8 +2,8 @@
 import family_cycles
 import nxprops
 
-RULE = ("engine A: (a) every manifest of 3 statements in which each statement takes <= 1 (quick) / <= 2 (thorough, kinds "
-        "explicit+validation) inputs among the three outputs and a source, each input being explicit / implicit / order-only "
+RULE = ("engine A: (a) every manifest of 3 statements in which each statement takes <= 1 (all four kinds) or <= 2 (kinds explicit+validation; "
+        "thorough also implicit+order-only and explicit+order-only) inputs among the three outputs and a source, each input being explicit / implicit / order-only "
         "/ validation, for every single target and the default; (b) templates: self loop, 2- and 3-cycles through each "
         "input kind, multi-output cycles, cycles inside and outside the requested closure, validation back-references "
         "(acyclic), cycles inside a validation's closure, phony cycles, cycles closed by depfile / deps=gcc / deps=msvc "
@@ -15,11 +15,11 @@ RULE = ("engine A: (a) every manifest of 3 statements in which each statement ta
 
 def fams(tier):
     fam = [("cycle templates", family_cycles.templates(tier), None, None)]
-    if tier == "quick":
-        fam.append(("cycles(3;1;ex+im+oo+val)", list(family_cycles.generated(1)), None, None))
-    else:
-        fam.append(("cycles(3;1;ex+im+oo+val)", list(family_cycles.generated(1)), None, None))
-        fam.append(("cycles(3;2;ex+val)", list(family_cycles.generated(2, kinds=("ex", "val"))), None, None))
+    fam.append(("cycles(3;1;ex+im+oo+val)", list(family_cycles.generated(1)), None, None))
+    fam.append(("cycles(3;2;ex+val)", list(family_cycles.generated(2, kinds=("ex", "val"))), None, None))
+    if tier != "quick":
+        fam.append(("cycles(3;2;im+oo)", list(family_cycles.generated(2, kinds=("im", "oo"))), None, None))
+        fam.append(("cycles(3;2;ex+oo)", list(family_cycles.generated(2, kinds=("ex", "oo"))), None, None))
     return fam
 
 
